@@ -295,4 +295,60 @@ theorem strLoop_eq_printToks (es : List Entry) : strLoop es = printToks (printed
       rw [this]
       simp [strFinal, printToks, tokFirst_ne_nil]
 
+/-! ### `_match_line_offset`: where the `SyntaxError` points (line number and column, both from 1) -/
+
+/-- the loop `for line_i, line in enumerate(lines, 1): new_pos = pos - len(line) - 1; if new_pos < 0: return line_i, pos + 1, line; pos = new_pos`
+over the lengths of the lines; `none` is the unreachable `assert False` -/
+def lineOffset (lineI : Nat) (pos : Int) : List Nat → Option (Nat × Int)
+  | [] => none
+  | len :: rest =>
+    let newPos : Int := pos - (len : Int) - 1
+    if newPos < 0 then some (lineI, pos + 1) else lineOffset (lineI + 1) newPos rest
+
+/-- characters before line `k` (each line with its newline) -/
+def lineStart : List Nat → Int
+  | [] => 0
+  | l :: t => (l : Int) + 1 + lineStart t
+
+theorem lineStart_nonneg (pre : List Nat) : 0 ≤ lineStart pre := by
+  induction pre with
+  | nil => simp [lineStart]
+  | cons l t ih => simp only [lineStart]; omega
+
+/-- **the reported position is the right one**: a match at column `c` (from 0, `c ≤ len`, so the end-of-line position included) of the line
+that follows the lines `pre` is reported as line `|pre| + 1`, column `c + 1` — for any number of lines of any lengths -/
+theorem lineOffset_spec (i : Nat) (pre : List Nat) (len : Nat) (post : List Nat) (c : Nat) (hc : c ≤ len) :
+    lineOffset i (lineStart pre + (c : Int)) (pre ++ len :: post) = some (i + pre.length, (c : Int) + 1) := by
+  induction pre generalizing i with
+  | nil =>
+    have h : (lineStart [] + (c : Int)) - (len : Int) - 1 < 0 := by simp only [lineStart]; omega
+    have e0 : lineStart [] + (c : Int) + 1 = (c : Int) + 1 := by simp only [lineStart]; omega
+    simp only [List.nil_append, lineOffset, if_pos h, List.length_nil, Nat.add_zero, e0]
+  | cons l pre ih =>
+    have e : lineStart (l :: pre) + (c : Int) - (l : Int) - 1 = lineStart pre + (c : Int) := by
+      simp only [lineStart]; omega
+    have hn : ¬ (lineStart (l :: pre) + (c : Int) - (l : Int) - 1 < 0) := by
+      rw [e]
+      have := lineStart_nonneg pre
+      omega
+    have hn' : ¬ (lineStart pre + (c : Int) < 0) := by rw [← e]; exact hn
+    simp only [List.cons_append, lineOffset, e, if_neg hn']
+    rw [ih (i + 1)]
+    have el : i + 1 + pre.length = i + (l :: pre).length := by simp only [List.length_cons]; omega
+    rw [el]
+
+/-- the lexicon of `_tokenize`: (pattern as written in the source, token kind, payload expression), in the order `re.Scanner` tries them -/
+def lexicon : List (String × String × String) :=
+  [("'\\\\s+'", "space", "None"),
+   ("'\\\\('", "(", "None"),
+   ("'\\\\)'", ")", "None"),
+   ("'[+-]'", "sign", "1 if t == '+' else -1"),
+   ("_unsigned_float_pattern", "coeff", "float(t)"),
+   ("'\\\\^'", "wedge", "None"),
+   ("'\\\\b(?:{})\\\\b'.format('|'.join((re.escape(name) for name in layout.names if name)))", "blade", "blade_name_index_map[t]"),
+   ("'.'", "unrecognized", "None")]
+
+/-- `_unsigned_float_pattern` -/
+def unsignedFloatPattern : String := "(?:\\d+(?:\\.\\d*)?|\\.\\d+)(?:[eE][-+]?\\d+)?"
+
 end Text
